@@ -607,3 +607,38 @@ def replay_runs(mon, rec, checker):
     print(f"replayed {case['variant']} seed={case['seed']}: steps={len(tr.steps)} terminated={tr.terminated} crashed={tr.crashed!r}")
     checker(mon, tr)
     return tr
+
+
+def run_pair(caseA, orderA, caseB, orderB, mon, max_steps=60):
+    """two algorithm objects alive in the same process and stepped alternately (class-level or module-level state shared
+    between instances would leak from one to the other).  Returns the two tracers."""
+    install_global_loggers()
+    trs = []
+    for case, order in ((caseA, orderA), (caseB, orderB)):
+        np.random.seed(case["seed"] % (2**31))
+        alg, stub = build_algorithm(case, order)
+        tr = Tracer(alg, case, stub, mon)
+        tr.ctor_crash, tr.terminated, tr.crashed, tr.cap_reached = None, False, None, False
+        trs.append(tr)
+    done = [False, False]
+    for r in range(max_steps):
+        for k, tr in enumerate(trs):
+            if done[k]:
+                continue
+            rec = tr.step()
+            if rec["crash"] is not None:
+                tr.crashed = rec["crash"]
+                done[k] = True
+            elif rec["returned"]:
+                tr.terminated = True
+                done[k] = True
+        if all(done):
+            break
+    for k, tr in enumerate(trs):
+        if not done[k]:
+            tr.cap_reached = True
+        elif tr.terminated:
+            for _ in range(2):
+                rec = tr.step()
+                rec["after_completion"] = True
+    return trs
